@@ -284,7 +284,7 @@ def plan(tier, seed, wave):
     if tier == "quick":
         if wave > 0:
             return []
-        nm, nr, nf, nrf = 64, 24000, 48, 6000
+        nm, nr, nf, nrf = 48, 20000, 36, 6000
     else:
         nm, nr, nf, nrf = 48, 40000, 48, 10000   # per wave; waves repeat until VERIF_BUDGET_S is used
     tasks = []
